@@ -26,7 +26,9 @@ DOC_PATHS = ("m/44'/0'/0'/0/0", "m/44'/137'/0'/0/0", "m/44'/137'/1'/0/0",
 
 YES = ("yes", "Yes", "YES", "yEs", "yes ")
 NO = ("no", "No", "NO", "n", "N")
-OTHER = ("", "maybe", "ok", "proceed", "0", "what?", "si", "ja")
+# not an explicit yes: blank, near misses of "yes" (prefixes, suffixes, extensions), other words
+OTHER = ("", " ", "y", "Y", "ye", "es", "s", "yess", "yeah", "yes!", "maybe", "ok", "proceed", "0", "1",
+         "what?", "si", "ja", "true")
 
 LETTERS = string.ascii_letters
 DIGITS = string.digits
@@ -52,59 +54,151 @@ def decode_path(b):
 
 
 # ---------------------------------------------------------------------- PIN classes (concretisation)
+# boundary characters: the ASCII neighbours of the three alphanumeric ranges, blanks, controls
+ASCII_EDGE = "!/:@[`{~-_. \x00\n\t\x7f"
+
+
+def _ascii_members():
+    out = ["abc%s1234" % c for c in ASCII_EDGE]                        # inside
+    out += ["%sbcd1234" % c for c in "! \x00\n-"]                      # at the start
+    out += ["abcd123%s" % c for c in "! \x00\n."]                      # at the end
+    return out
+
+
+# Members of every PIN content class of spec/Admin.tla, boundary-first. Every member is run in the
+# PIN-decisive (single-deviation) behaviours; elsewhere one seeded member is drawn.
+PIN_MEMBERS = {
+    # compliant: mixed, upper only, lower only, a single letter first / last, extremes of the ranges
+    "ok": ["abcd1234", "a1234567", "1234567z", "ABCDEFGH", "abcdefgh", "ABCD1234", "0000000Z",
+           "zzzzzzzz", "aB3dE6gH", "A0000000", "9999999a"],
+    "digits": ["12345678", "00000000", "99999999"],
+    "len7": ["abc1234", "a123456", "ABCDEFG", "abcdefg", "123456z", "1234567", "a"],
+    "len9": ["abcd12345", "a12345678", "ABCDEFGHI", "abcdefghi", "12345678z", "123456789"],
+    "ascii": _ascii_members(),
+    # non-ASCII text whose UTF-8 encoding is exactly 8 bytes: Latin-1 letters and signs (2 bytes),
+    # Greek / Cyrillic / Arabic-Indic and extended Arabic-Indic digits (2), fullwidth forms and CJK
+    # (3), emoji and mathematical digits (4), NBSP
+    "hi8": ["Z\u00fcrich1", "p\u00eache12", "1234\u00fa67", "abcdef\u00e9", "\u00f1andu12",
+            "ab\u00fe1234", "\u00b5abc123", "\u00aa\u00ba\u00b2\u00b3", "\u00bdabc123", "\u00ffabc123",
+            "\u00d7abc123", "\u00e9\u00e9\u00e9\u00e9", "\u00fc\u00fc\u00fc\u00fc", "\u00c0bcdef1",
+            "abc\u00a0123", "\u03a9mega12", "\u0416abc123", "\u0660\u0661\u0662\u0663",
+            "\u0661\u0662\u0663a1", "\u06f2\u06f3\u06f5\u06f9", "\uff11\uff12ab", "\uff21\uff11cd",
+            "\uff41b12345", "\u4e2dab123", "\U0001f511ab12", "\U0001d7cf\U0001d7d0", "\u00dfabc123",
+            "a\u00f2\u00f3\u00f51", "1\u00f9\u00fd\u00fa2", "\u00bc\u00be\u00b9\u00b5"],
+    # 8 characters, more than 8 bytes
+    "hiwide": ["abcdefg\u00e9", "Z\u00fcrich12", "p\u00eache123", "\uff11\uff12\uff13\uff14\uff15\uff16\uff17\uff18",
+               "\u0660\u0661\u0662\u0663\u0664\u0665\u0666\u0667", "\u00c0\u00c9\u00ce\u00d5\u00dcabc",
+               "abcd123\U0001f511", "\u00ea\u00ea\u00ea\u00ea\u00ea\u00ea\u00ea\u00ea", "\uff21bcd1234"],
+}
+
+# characters by UTF-8 length, for composing random non-ASCII PINs of an exact byte length
+_BY_LEN = {
+    1: ALNUM,
+    2: "".join(chr(c) for c in list(range(0xA1, 0x100)) + [0x3A9, 0x416, 0x660, 0x661, 0x669, 0x6F2,
+                                                            0x6F9, 0x131, 0x17F]),
+    3: "".join(chr(c) for c in list(range(0xFF10, 0xFF1A)) + list(range(0xFF21, 0xFF27)) +
+               [0xFF41, 0x4E2D, 0x0967, 0x2460, 0x212A]),
+    4: "".join(chr(c) for c in [0x1F511, 0x1D7CF, 0x1D7D8, 0x1D400, 0x1D41A, 0x10400]),
+}
+
+
+def compose_utf8(rng, nbytes, need_high=True):
+    """Random text whose UTF-8 encoding is exactly `nbytes` long (with a non-ASCII character)."""
+    while True:
+        out, left = [], nbytes
+        while left > 0:
+            k = rng.choice([n for n in (1, 1, 2, 2, 2, 3, 4) if n <= left])
+            out.append(rng.choice(_BY_LEN[k]))
+            left -= k
+        rng.shuffle(out)
+        p = "".join(out)
+        if not need_high or any(ord(c) > 127 for c in p):
+            return p
+
+
 def pin_of_class(cls, rng, boundary=False):
-    """A member of an operator PIN class. `valid`: 8 alphanumerics with a letter; `short`: wrong
-    length (alphanumeric, with a letter); `digits`: 8 digits; `nonalnum`: 8 characters, one of them
-    outside [A-Za-z0-9]."""
-    if cls == "valid":
-        if boundary:
-            return rng.choice(["a1234567", "1234567z", "ABCDEFGH", "abcd1234", "0000000Z", "zzzzzzzz"])
+    """A member of a PIN content class: a listed (boundary) member or a seeded random one."""
+    if boundary or rng.random() < 0.5:
+        return rng.choice(PIN_MEMBERS[cls])
+    if cls == "ok":
         while True:
             p = "".join(rng.choice(ALNUM) for _ in range(8))
             if any(c in LETTERS for c in p):
                 return p
-    if cls == "short":
-        n = rng.choice([7, 7, 6, 4, 1]) if not boundary else 7
-        p = "".join(rng.choice(ALNUM) for _ in range(n - 1))
-        return p + rng.choice(LETTERS)
     if cls == "digits":
         return "".join(rng.choice(DIGITS) for _ in range(8))
-    if cls == "nonalnum":
+    if cls in ("len7", "len9"):
+        n = rng.choice([7, 7, 7, 6, 4, 2]) if cls == "len7" else 9     # (longer: random tier only)
+        return "".join(rng.choice(ALNUM) for _ in range(n - 1)) + rng.choice(LETTERS)
+    if cls == "ascii":
         p = [rng.choice(ALNUM) for _ in range(8)]
-        p[rng.randrange(8)] = rng.choice(PUNCT + UNICODE)
-        p[rng.randrange(8)] = rng.choice(LETTERS + PUNCT)
-        if all(c in ALNUM for c in p):
-            p[0] = "!"
+        p[rng.randrange(8)] = rng.choice(PUNCT + ASCII_EDGE)
         return "".join(p)
+    if cls == "hi8":
+        return compose_utf8(rng, 8)
+    if cls == "hiwide":
+        while True:
+            p = "".join(rng.choice(rng.choice([ALNUM, _BY_LEN[2], _BY_LEN[3]])) for _ in range(8))
+            if any(ord(c) > 127 for c in p):
+                return p
     raise ValueError(cls)
 
 
 def random_pin(rng):
-    """Binding B: PIN strings around the policy boundary (7/8/9 characters, all digits, punctuation,
-    unicode)."""
-    kind = rng.randrange(10)
+    """Binding B: PIN strings around the policy boundary (7/8/9 characters, all digits, one case
+    only, ASCII punctuation / blanks / controls, non-ASCII text of exactly 8 bytes or of 8
+    characters, members of the class lists with one character mutated)."""
+    kind = rng.randrange(14)
     n = rng.choice([7, 8, 8, 8, 9])
     if kind <= 2:
         p = "".join(rng.choice(ALNUM) for _ in range(n))
     elif kind == 3:
         p = "".join(rng.choice(DIGITS) for _ in range(n))
     elif kind == 4:
-        p = "".join(rng.choice(LETTERS) for _ in range(n))
+        p = "".join(rng.choice(rng.choice([string.ascii_lowercase, string.ascii_uppercase]))
+                    for _ in range(n))
     elif kind == 5:
         p = "".join(rng.choice(DIGITS) for _ in range(n - 1)) + rng.choice(LETTERS)
     elif kind == 6:
         p = list("".join(rng.choice(ALNUM) for _ in range(n)))
-        p[rng.randrange(n)] = rng.choice(PUNCT)
+        p[rng.randrange(n)] = rng.choice(PUNCT + ASCII_EDGE)
         p = "".join(p)
     elif kind == 7:
         p = list("".join(rng.choice(ALNUM) for _ in range(n)))
-        p[rng.randrange(n)] = rng.choice(UNICODE)
+        p[rng.randrange(n)] = rng.choice(UNICODE + _BY_LEN[2])
         p = "".join(p)
     elif kind == 8:
         p = "".join(rng.choice(ALNUM) for _ in range(rng.choice([1, 2, 3, 10, 12])))
+    elif kind in (9, 10):
+        p = compose_utf8(rng, rng.choice([8, 8, 8, 7, 9]))
+    elif kind == 11:
+        p = rng.choice(PIN_MEMBERS[rng.choice(sorted(PIN_MEMBERS))])
+    elif kind == 12:
+        p = list(rng.choice(PIN_MEMBERS[rng.choice(sorted(PIN_MEMBERS))]))
+        p[rng.randrange(len(p))] = rng.choice(ALNUM + PUNCT + _BY_LEN[2])
+        p = "".join(p)
     else:
         p = "".join(rng.choice(ALNUM + PUNCT) for _ in range(n))
     return p
+
+
+def sweep_pins(planes=(1, 2)):
+    """Every character of the given UTF-8 lengths (1: U+0000..7F, 2: U+0080..7FF; 3 and 4: fullwidth
+    forms, Indic / CJK / enclosed samples, mathematical alphanumerics) inside an otherwise compliant
+    PIN padded with ASCII so that the encoding is exactly 8 bytes."""
+    cps = []
+    if 1 in planes:
+        cps += [(c, 1) for c in range(0x80)]
+    if 2 in planes:
+        cps += [(c, 2) for c in range(0x80, 0x800)]
+    if 3 in planes:
+        cps += [(c, 3) for c in list(range(0xFF00, 0xFF60)) + list(range(0x0966, 0x0970)) +
+                list(range(0x2460, 0x2474)) + list(range(0x3040, 0x3060)) + [0x212A, 0x4E2D, 0xFFFD]]
+    if 4 in planes:
+        cps += [(c, 4) for c in list(range(0x1D400, 0x1D420)) + list(range(0x1D7CE, 0x1D800)) +
+                list(range(0x10400, 0x10410)) + [0x1F511]]
+    pad = {1: ("abc", "1234"), 2: ("abc", "123"), 3: ("ab", "123"), 4: ("ab", "12")}
+    return [pad[n][0] + chr(c) + pad[n][1] for c, n in cps]
 
 
 # ---------------------------------------------------------------------- scripted operator + patches
@@ -212,20 +306,37 @@ def _pick(v, dom, rng):
     return v if v not in ("?", None) else rng.choice(dom)
 
 
-def scenario_from_model(cfg, e, rng, boundary=False):
+FAVOURABLE = {"echo": "t", "answers": "yes", "wipe": "t", "unlock": "t", "newpin": "t",
+              "mode2": "signer", "keys": "t", "retry": "valid"}
+
+
+def scenario_from_model(cfg, e, rng, boundary=False, member=None, favourable=False):
     """Concretise one behaviour of GenAdmin (cfg + lazily chosen env). Dimensions the behaviour never
-    looked at ("?") get seeded random members of their domain."""
-    first = pin_of_class(cfg["pinc"], rng, boundary)
+    looked at ("?") get seeded random members of their domain - or, for the PIN-decisive behaviours
+    (`favourable`), the value that lets the command go on, so that a PIN the command should have
+    refused would reach the device. `member`: the member of the PIN content class to use."""
+    e = dict(e)
+    if favourable:
+        for k, v in FAVOURABLE.items():
+            if e[k] == "?":
+                e[k] = v
+        if e["mode"] == "?":
+            e["mode"] = "boot" if not cfg["no_unlock"] else (
+                "signer" if (cfg["plat"] == "sgx" or cfg["op"] == "pubkeys") else "boot")
+        if e["onb"] == "?":
+            e["onb"] = "no" if cfg["op"] == "onboard" else "yes"
+    pinc = e["pinc"] if e["pinc"] != "?" else rng.choice(sorted(PIN_MEMBERS))
+    first = member if member is not None else pin_of_class(pinc, rng, boundary)
     pins = [first]
     if cfg["src"] == "prompt" and e["retry"] == "valid":
-        pins.append(pin_of_class("valid", rng))
+        pins.append(pin_of_class("ok", rng))
     answers = _pick(e["answers"], ["yes", "no", "oy", "on"], rng)
     onb = e["onb"]
     if onb == "?":
         # never asked: a device able to give the answers the behaviour goes on to record
         onb = "yes" if (cfg["no_unlock"] and (e["newpin"] == "t" or e["keys"] == "t")) \
             else rng.choice(["yes", "no"])
-    return build(
+    sc = build(
         op=cfg["op"], plat=cfg["plat"], any_pin=cfg["any_pin"], no_unlock=cfg["no_unlock"],
         src=cfg["src"], pins=pins, outfile=cfg["outfile"],
         mode=_pick(e["mode"], MODES, rng), onb=onb,
@@ -233,6 +344,18 @@ def scenario_from_model(cfg, e, rng, boundary=False):
         wipe=_pick(e["wipe"], ["t"], rng), unlock=_pick(e["unlock"], ["t", "f"], rng),
         newpin=_pick(e["newpin"], ["t", "f"], rng), mode2=_pick(e["mode2"], MODES, rng),
         keys=_pick(e["keys"], ["t", "f"], rng), keys_fail_at=0, rng=rng)
+    sc.desc["pinc"] = pinc
+    return sc
+
+
+def pin_decisive(b):
+    """A behaviour of the model in which the PIN content is the only deviation: the PIN was looked at
+    and either everything went through, or the command stopped because of the PIN (rejected option
+    before any exchange; operator gave up at the prompt)."""
+    cfg, e = b["cfg"], b["env"]
+    if e["pinc"] == "?":
+        return False
+    return b["outcome"] == "ok" or (cfg["src"] == "opt" and not b["hist"]) or e["retry"] == "eof"
 
 
 def build(op, plat, any_pin, no_unlock, src, pins, outfile, mode, onb, echo, answers, wipe, unlock,
@@ -243,7 +366,7 @@ def build(op, plat, any_pin, no_unlock, src, pins, outfile, mode, onb, echo, ans
                 pins=list(pins), outfile=bool(outfile), mode=mode, onb=onb, echo=echo, answers=answers,
                 wipe=wipe, unlock=unlock, newpin=newpin, mode2=mode2, keys=keys,
                 keys_fail_at=(rng.randrange(6) if keys_fail_at is None else keys_fail_at),
-                upin=upin or pin_of_class("valid", rng), strict=bool(strict), no_exec=bool(no_exec),
+                upin=upin or pin_of_class("ok", rng), strict=bool(strict), no_exec=bool(no_exec),
                 devseed=devseed if devseed is not None else rng.randrange(1 << 30),
                 mode_byte=(MODE_BYTES[mode] if mode != "other" else rng.choice(OTHER_MODE_BYTES)),
                 mode2_byte=(MODE_BYTES[mode2] if mode2 != "other" else rng.choice(OTHER_MODE_BYTES)),
@@ -254,7 +377,8 @@ def build(op, plat, any_pin, no_unlock, src, pins, outfile, mode, onb, echo, ans
 
 
 def make_device(d):
-    dev = AdminSimDevice(platform=d["plat"], mode=d["mode_byte"], seed=d["devseed"])
+    dev = AdminSimDevice(platform=d["plat"], mode=d["mode_byte"], seed=d["devseed"],
+                         with_keys=(d["op"] == "pubkeys"))
     dev.onboarded = d["onb"] == "yes"
     dev.echo_ok = d["echo"] == "t"
     # SGX reports bootloader mode while locked; a device that is going to acknowledge a password
@@ -312,7 +436,7 @@ def run(sc, scratch, tag, prev_seed=None):
     def recall():
         # after a successful onboarding the operator types the PIN (s)he has just set
         if d["op"] == "onboard" and dev.received_seed is not None:
-            return dev.pin.decode("utf-8", "surrogateescape")
+            return operator.typed[-1] if operator.typed else dev.pin.decode("utf-8", "surrogateescape")
         return None
     operator = Operator(world, lines, prompt_pins, recall)
     rnd = Randomness(world)
@@ -352,7 +476,7 @@ def run(sc, scratch, tag, prev_seed=None):
     evs = project(world)
     files, notes = read_files(d, out_path)
     expect = [{"path": p, "c": compress(dev.keys[path_bytes(p)]).hex(),
-               "u": dev.keys[path_bytes(p)].hex()} for p in DOC_PATHS]
+               "u": dev.keys[path_bytes(p)].hex()} for p in DOC_PATHS] if d["op"] == "pubkeys" else []
     trace = {
         "op": d["op"], "plat": d["plat"], "any_pin": d["any_pin"], "no_unlock": d["no_unlock"],
         "src": d["src"], "pins": [list(p.encode("utf-8", "surrogateescape")) for p in d["pins"]],
@@ -360,6 +484,7 @@ def run(sc, scratch, tag, prev_seed=None):
         "answers": [c for (_, c) in answer_lines(d)], "d0": d0, "acc": acceptance(d),
         "prev_seed": list(prev_seed) if prev_seed else [],
         "ev": evs, "outcome": outcome, "files": files, "expect": expect,
+        "fin_pin": list(bytes(dev.pin)),
     }
     diag = {"exc": exc, "desc": d, "classes": [e["cls"] for e in evs],
             "seed_received": dev.received_seed, "draws": rnd.draws, "stdout": patched.out.getvalue(),
@@ -401,6 +526,29 @@ def run_cli(d, options):
     finally:
         _sys.argv = saved
         _sys.stderr = saved_err
+
+
+def run_generated(n, scratch, tag):
+    """PINs from the generator the manager uses for its own PIN changes (`BasePin.generate_pin`, and
+    `FileBasedPin.new` read back from the file it writes), as one trace of `generated` events."""
+    env.setup()
+    from ledger.pin import BasePin, FileBasedPin
+    none = {"mode": -1, "onb": False}
+    evs = []
+    for k in range(n):
+        if k % 10 == 9:
+            path = os.path.join(scratch, "genpin_%s.txt" % tag)
+            FileBasedPin.new(path)
+            with open(path, "rb") as f:
+                pin = f.read()
+        else:
+            pin = BasePin.generate_pin()
+        evs.append(_ev("generated", none, data=bytes(pin)))
+    return {"op": "genpin", "plat": "ledger", "any_pin": False, "no_unlock": False, "src": "opt",
+            "pins": [], "upin": [], "outfile": False, "answers": [],
+            "d0": {"mode": "na", "onb": "na", "echo": "na"},
+            "acc": {"wipe": "?", "unlock": "?", "newpin": "?"}, "prev_seed": [], "ev": evs,
+            "outcome": "ok", "files": {"txt": [], "json": []}, "expect": [], "fin_pin": []}
 
 
 def _ev(cls, truth, ans="na", ok="na", i=0, b=0, data=()):
